@@ -15,9 +15,14 @@ func init() {
 			{Pkg: "buffer", Entry: "VerifH03b", What: "accessors never read beyond the message; results equal an independent cursor",
 				Quick: map[string]int{"N": 5, "CALLS": 2}, Thorough: map[string]int{"N": 6, "CALLS": 3},
 				Witnesses: []string{"string-read", "u32-read"}},
+			{Pkg: "wire", Entry: "VerifH08a", What: "the accessors as the Bind decoder calls them, with client-declared lengths and counts of every value and sign over an arbitrary body: short data is an error, never a panic, and nothing beyond the message is read (the decoded values equal the reference decoder's)",
+				Quick: map[string]int{"N": 14, "MAXCOUNT": 2}, Thorough: map[string]int{"N": 17, "MAXCOUNT": 2},
+				Witnesses: []string{"truncated"}},
 			{Pkg: "wire", Entry: "VerifH03c", What: "session level: surplus/unread fields of one message never change what the next message produces",
 				Quick: map[string]int{"S": 3}, Thorough: map[string]int{"S": 5},
 				Witnesses: []string{"surplus-then-empty-body", "second-parsed"}},
+			{Pkg: "wire", Entry: "VerifH14q", What: "surplus bytes after the last field of the Query or Execute message that starts a COPY never leak into the binary COPY stream read by the row reader",
+				Quick: map[string]int{"S": 3}, Witnesses: []string{"surplus-after-the-last-field-of-the-starting-message", "copy-started-by-execute"}},
 			{Pkg: "wire", Entry: "VerifH11", What: "SSLRequest and the following startup packet arriving in ONE read (maximal read-ahead): the refusal path keeps the bytes already buffered",
 				Quick: map[string]int{"STUFF": 2}, Witnesses: []string{"refused-then-plaintext"}},
 			{Pkg: "buffer", Entry: "VerifH10b", What: "a skipped (oversized) message is consumed in exactly its declared length, for every segmentation",
